@@ -374,6 +374,7 @@ impl Xot {
     /// ```
     pub fn insert_after(&mut self, reference_node: Node, new_sibling: Node) -> Result<(), Error> {
         self.add_structure_check(self.parent(reference_node), new_sibling)?;
+        self.sibling_reference_check(reference_node, new_sibling)?;
         self.remove_consolidate_text_nodes(
             self.previous_sibling(new_sibling),
             self.next_sibling(new_sibling),
@@ -394,6 +395,7 @@ impl Xot {
     /// Insert a new sibling before a reference node.
     pub fn insert_before(&mut self, reference_node: Node, new_sibling: Node) -> Result<(), Error> {
         self.add_structure_check(self.parent(reference_node), new_sibling)?;
+        self.sibling_reference_check(reference_node, new_sibling)?;
         self.remove_consolidate_text_nodes(
             self.previous_sibling(new_sibling),
             self.next_sibling(new_sibling),
@@ -879,6 +881,22 @@ impl Xot {
         self.text_consolidation = consolidate;
     }
 
+    fn sibling_reference_check(&self, reference_node: Node, new_sibling: Node) -> Result<(), Error> {
+        if reference_node == new_sibling {
+            return Err(Error::InvalidOperation(
+                "Cannot insert node as a sibling of itself".into(),
+            ));
+        }
+        // normal children come after namespace and attribute nodes, so
+        // nothing can be inserted next to those
+        if !self.value(reference_node).is_normal() {
+            return Err(Error::InvalidOperation(
+                "Cannot insert a sibling for an attribute or namespace node".into(),
+            ));
+        }
+        Ok(())
+    }
+
     fn add_structure_check(&self, parent: Option<Node>, child: Node) -> Result<(), Error> {
         let parent = parent.ok_or_else(|| {
             Error::InvalidOperation("Cannot create siblings for document node".into())
@@ -889,6 +907,12 @@ impl Xot {
         ) {
             return Err(Error::InvalidOperation(
                 "Cannot add children to non-element and non-document node".into(),
+            ));
+        }
+        // a node cannot become a child of itself or of one of its own descendants
+        if self.ancestors(parent).any(|ancestor| ancestor == child) {
+            return Err(Error::InvalidOperation(
+                "Cannot move node into itself or its own descendants".into(),
             ));
         }
         match self.value_type(child) {
